@@ -105,8 +105,18 @@ func (n *BitcoinNode) handleVersion(ctx context.Context, header *wire.MessageHea
 	// 	return errors.Wrapf(ErrNotFullService, "0x%016x", uint64(msg.Services))
 	// }
 
-	n.handshakeChannel <- msg // trigger handshake action
+	n.notifyHandshake(msg)
 	return nil
+}
+
+// notifyHandshake passes a handshake message to the handshake thread. The handshake thread stops
+// reading the channel when the handshake is complete, so a message that doesn't fit in the
+// channel is dropped instead of blocking the message handler forever.
+func (n *BitcoinNode) notifyHandshake(msg wire.Message) {
+	select {
+	case n.handshakeChannel <- msg: // trigger handshake action
+	default:
+	}
 }
 
 func (n *BitcoinNode) handleVerack(ctx context.Context, header *wire.MessageHeader,
@@ -117,7 +127,7 @@ func (n *BitcoinNode) handleVerack(ctx context.Context, header *wire.MessageHead
 		return errors.Wrap(err, "read message")
 	}
 
-	n.handshakeChannel <- msg // trigger handshake action
+	n.notifyHandshake(msg)
 	return nil
 }
 
